@@ -14,7 +14,9 @@ import (
 	"fmt"
 	"io"
 	"math/rand"
+	"net"
 	"runtime"
+	"time"
 
 	"github.com/andybalholm/brotli"
 	"github.com/klauspost/compress/zstd"
@@ -255,9 +257,15 @@ func contains(a []uint16, x uint16) bool {
 }
 
 func runScenario(c *vh.Ctx, s scenario) {
+	res := tls.VerifDecompressCert(algos(s.adv), s.alg, uint32(s.declared), s.comp)
+	judge(c, s, res)
+}
+
+// judge applies the property oracle to what decompressCert did and emits the correspondence case;
+// s.adv is the set of algorithms ADVERTISED (for reconfigured clients: read back from the ClientHello bytes)
+func judge(c *vh.Ctx, s scenario, res tls.VerifC21Result) {
 	msg := build(s.es)
 	full := append(append([]byte{}, msg...), s.extra...)
-	res := tls.VerifDecompressCert(algos(s.adv), s.alg, uint32(s.declared), s.comp)
 	rp := replayDecoder(s.alg, s.comp, s.declared)
 	accepted := res.Err == nil && res.Msg != nil
 	header := []byte{11, byte(s.declared >> 16), byte(s.declared >> 8), byte(s.declared)}
@@ -271,6 +279,8 @@ func runScenario(c *vh.Ctx, s scenario) {
 	switch {
 	case s.valid && accepted && !bytes.Equal(res.Msg, append(append([]byte{}, header...), msg...)):
 		c.Fail("accepted-other-message/"+s.key, "the client accepted a certificate message other than the one the server compressed", in, vh.Hex(res.Msg[:min(len(res.Msg), 64)]), "the compressed message or an error")
+	case s.valid && advertised && s.declared == len(full) && len(full) > limit && (accepted || res.Alert != 42):
+		c.Fail("over-limit-accepted/"+s.key, "a certificate message above the handshake size limit is not refused with bad_certificate", in, fmt.Sprint(res.Err, " alert=", res.Alert), "bad_certificate")
 	case s.valid && advertised && s.declared == len(full) && len(s.extra) == 0 && len(full) <= limit && !accepted:
 		c.Fail("valid-stream-rejected/"+s.key, "a valid compressed encoding of the certificate message is not recovered", in, fmt.Sprint(res.Err, " alert=", res.Alert), "the certificate message")
 	case s.valid && advertised && s.declared != len(full) && (accepted || res.Alert != 42):
@@ -376,9 +386,31 @@ func run(c *vh.Ctx) {
 			c.Fail("declared-over-limit", "a CompressedCertificate declaring 16 MiB (above the 256 KiB certificate limit) is not refused up front: the declared size is allocated",
 				map[string]any{"declared": 0xffffff, "compressed_len": len(comp)}, fmt.Sprint("err=", res.Err, " alert=", res.Alert, " allocated=", alloc), "bad_certificate without allocating the declared length")
 		}
+		for _, lg := range []struct {
+			name string
+			ei   int
+			es   []entry
+		}{
+			{"zlib-70k", 1, []entry{{70000, 3, 7}}},
+			{"brotli-130k", 6, []entry{{65000, 9, 11}, {65000, 200, 3}}},
+			{"zstd-200k-3frames", len(encs) - 2, []entry{{100000, 1, 1}, {99000, 5, 9}}},
+			{"zlib-exactly-limit", 0, []entry{{limit - 9, 77, 13}}},
+		} {
+			lm := build(lg.es)
+			var cuts []int
+			if lg.ei == len(encs)-2 {
+				cuts = []int{50000, 120000}
+			}
+			runScenario(c, scenario{"large/" + lg.name, all, encs[lg.ei].alg, lg.es, nil, len(lm), encs[lg.ei].f(lm, cuts), true})
+		}
+		over := []entry{{limit - 8, 5, 3}} // one byte more than a Certificate message may have
+		om := build(over)
+		runScenario(c, scenario{"over-limit/message-limit+1", all, 1, over, nil, len(om), encs[0].f(om, nil), true})
 		runScenario(c, scenario{"over-limit/declared-16M", all, 2, es, nil, 0xffffff, comp, true})
 		runScenario(c, scenario{"over-limit/declared-limit+1", all, 3, es, nil, limit + 1, z.f(msg, nil), true})
 	}
+	// 0b. clients configured through the public API, reconfigured before the ClientHello is final
+	runReconfig(c, encs)
 	// 1. utlsCompressedCertificateMsg codec
 	for i := 0; i < c.N/2+8; i++ {
 		alg := uint16(r.Intn(65536))
@@ -472,6 +504,136 @@ func run(c *vh.Ctx) {
 			}
 			runScenario(c, s)
 			nrun++
+		}
+	}
+}
+
+// ---------- advertised = what the ClientHello on the wire says ----------
+type recConn struct{ wrote []byte }
+
+func (c *recConn) Read(p []byte) (int, error)         { return 0, net.ErrClosed }
+func (c *recConn) Write(p []byte) (int, error)        { c.wrote = append(c.wrote, p...); return len(p), nil }
+func (c *recConn) Close() error                       { return nil }
+func (c *recConn) LocalAddr() net.Addr                { return &net.TCPAddr{} }
+func (c *recConn) RemoteAddr() net.Addr               { return &net.TCPAddr{} }
+func (c *recConn) SetDeadline(t time.Time) error      { return nil }
+func (c *recConn) SetReadDeadline(t time.Time) error  { return nil }
+func (c *recConn) SetWriteDeadline(t time.Time) error { return nil }
+
+// compress_certificate (27) algorithms of a marshalled ClientHello, by an independent parser
+func wireAlgs(raw []byte) (algs []uint16, ok bool) {
+	defer func() {
+		if recover() != nil {
+			algs, ok = nil, false
+		}
+	}()
+	b := raw[4+2+32:]
+	b = b[1+int(b[0]):]
+	b = b[2+(int(b[0])<<8|int(b[1])):]
+	b = b[1+int(b[0]):]
+	b = b[2:]
+	for len(b) >= 4 {
+		typ, l := int(b[0])<<8|int(b[1]), int(b[2])<<8|int(b[3])
+		body := b[4 : 4+l]
+		b = b[4+l:]
+		if typ == 27 {
+			n := int(body[0])
+			for i := 0; i+1 < n; i += 2 {
+				algs = append(algs, uint16(body[1+i])<<8|uint16(body[2+i]))
+			}
+		}
+	}
+	return algs, true
+}
+
+func customSpec(algs []tls.CertCompressionAlgo) *tls.ClientHelloSpec {
+	return &tls.ClientHelloSpec{
+		TLSVersMin: tls.VersionTLS12, TLSVersMax: tls.VersionTLS13,
+		CipherSuites:       []uint16{tls.TLS_AES_128_GCM_SHA256, tls.TLS_ECDHE_ECDSA_WITH_AES_128_GCM_SHA256},
+		CompressionMethods: []byte{0},
+		Extensions: []tls.TLSExtension{
+			&tls.SNIExtension{},
+			&tls.SupportedCurvesExtension{Curves: []tls.CurveID{tls.X25519}},
+			&tls.SupportedPointsExtension{SupportedPoints: []byte{0}},
+			&tls.SignatureAlgorithmsExtension{SupportedSignatureAlgorithms: []tls.SignatureScheme{tls.ECDSAWithP256AndSHA256, tls.PSSWithSHA256}},
+			&tls.KeyShareExtension{KeyShares: []tls.KeyShare{{Group: tls.X25519}}},
+			&tls.SupportedVersionsExtension{Versions: []uint16{tls.VersionTLS13, tls.VersionTLS12}},
+			&tls.UtlsCompressCertExtension{Algorithms: algs},
+		},
+	}
+}
+
+// A client is set up with one algorithm list, built, then given further lists (by editing the extension in place or
+// by applying a new spec) and built again each time. The server may only use what the FINAL ClientHello advertises.
+func runReconfig(c *vh.Ctx, encs []enc) {
+	r := c.Rng
+	lists := [][]uint16{{2}, {1}, {3}, {2, 1}, {1, 3}, {3, 2, 1}, {}}
+	byAlg := map[uint16]enc{1: encs[1], 2: encs[6], 3: encs[len(encs)-2]}
+	es := []entry{{200, 11, 5}, {120, 90, 7}}
+	msg := build(es)
+	type setup struct {
+		name  string
+		id    tls.ClientHelloID
+		steps [][]uint16
+		how   string
+	}
+	var setups []setup
+	for i := 0; i < 8; i++ {
+		st := setup{id: tls.HelloCustom, how: []string{"edit-extension", "new-spec"}[i%2]}
+		for k, n := 0, 2+r.Intn(2); k < n; k++ {
+			st.steps = append(st.steps, lists[r.Intn(len(lists))])
+		}
+		st.name = fmt.Sprintf("custom/%s/%v", st.how, st.steps)
+		setups = append(setups, st)
+	}
+	for _, id := range []tls.ClientHelloID{tls.HelloChrome_Auto, tls.HelloChrome_120, tls.HelloSafari_Auto} {
+		st := setup{id: id, how: "edit-extension", steps: [][]uint16{nil, lists[1+r.Intn(2)]}} // nil = the parrot's own list
+		st.name = fmt.Sprintf("%s/edit-extension/%v", id.Client+id.Version, st.steps[1])
+		setups = append(setups, st)
+	}
+	for _, st := range setups {
+		for _, alg := range []uint16{1, 2, 3} {
+			conn := &recConn{}
+			uc := tls.UClient(conn, &tls.Config{ServerName: "c21.test", InsecureSkipVerify: true}, st.id)
+			failed := ""
+			p, pv := vh.Recover(func() {
+				for k, l := range st.steps {
+					switch {
+					case st.id == tls.HelloCustom && (k == 0 || st.how == "new-spec"):
+						if err := uc.ApplyPreset(customSpec(algos(l))); err != nil {
+							failed = err.Error()
+							return
+						}
+					case l != nil:
+						for _, e := range uc.Extensions {
+							if cc, ok := e.(*tls.UtlsCompressCertExtension); ok {
+								cc.Algorithms = algos(l)
+							}
+						}
+					}
+					if err := uc.BuildHandshakeState(); err != nil {
+						failed = err.Error()
+						return
+					}
+				}
+			})
+			if p || failed != "" {
+				c.Count("reconfig-setup-refused")
+				_ = pv
+				break
+			}
+			wire, ok := wireAlgs(uc.HandshakeState.Hello.Raw)
+			if !ok {
+				c.Fail("reconfig-hello-unparsable/"+st.name, "cannot parse the ClientHello of a reconfigured client", st.name, vh.Hex(uc.HandshakeState.Hello.Raw), "ClientHello")
+				break
+			}
+			comp := byAlg[alg].f(msg, nil)
+			res := tls.VerifDecompressCertOn(uc, alg, uint32(len(msg)), comp)
+			if len(conn.wrote) >= 7 && conn.wrote[0] == 21 {
+				res.Alert = int(conn.wrote[6])
+			}
+			judge(c, scenario{fmt.Sprintf("reconfig/%s/alg%d", st.name, alg), wire, alg, es, nil, len(msg), comp, true}, res)
+			c.Count("reconfigured-clients")
 		}
 	}
 }
